@@ -1,7 +1,7 @@
 /* N(k) stand-in for C14 (objects independent of each other and of their past): every history of at most LEN API operations over two
    grammar slots on the REAL library (ASan/UBSan/LeakSanitizer), each call compared with what a fresh object with the same definition
    and settings returns (the model below tracks only: exists, which definition, lookahead level).  Operations: create, define good
-   grammar A (description text), define good grammar B (callbacks), define bad grammar (loop), set lookahead 0/2, parse a sentence,
+   grammar A (description text), define good grammar B (callbacks), define bad grammar (loop), set lookahead 0/2, set the cost flag, ask for all parses, parse a sentence,
    parse a non-sentence, parse a token that is not a terminal, free.  At the end everything is freed (leaks are reported at exit). */
 #include <stdio.h>
 #include <stdlib.h>
@@ -10,9 +10,9 @@
 #ifndef LEN
 #define LEN 5
 #endif
-enum { OP_CREATE, OP_DEF_A, OP_DEF_B, OP_DEF_BAD, OP_LA0, OP_LA2, OP_SENT, OP_NONSENT, OP_BADTOK, OP_FREE, NOPS };
-static const char *opname[] = {"create", "defA", "defB", "defBAD", "la0", "la2", "sent", "nonsent", "badtok", "free"};
-struct slot { struct grammar *g; int def; int la; int lasterr; };      /* def: 0 undefined, 1 A, 2 B */
+enum { OP_CREATE, OP_DEF_A, OP_DEF_B, OP_DEF_BAD, OP_LA0, OP_LA2, OP_COST1, OP_ALL, OP_SENT, OP_NONSENT, OP_BADTOK, OP_FREE, NOPS };
+static const char *opname[] = {"create", "defA", "defB", "defBAD", "la0", "la2", "cost1", "allparses", "sent", "nonsent", "badtok", "free"};
+struct slot { struct grammar *g; int def; int la; int cost; int one; int lasterr; };      /* def: 0 undefined, 1 A, 2 B */
 static struct slot S[2];
 static const int *toks; static int ntok, pos, nerr;
 static int rd (void **a) { *a = NULL; return pos < ntok ? toks[pos++] : -1; }
@@ -30,12 +30,14 @@ static int apply (int s, int op)
   if ((op == OP_CREATE) != (x->g == NULL)) return 0;                       /* not applicable in this state */
   switch (op)
     {
-    case OP_CREATE: x->g = yaep_create_grammar (); x->def = 0; x->la = 1; x->lasterr = 0;
+    case OP_CREATE: x->g = yaep_create_grammar (); x->def = 0; x->la = 1; x->cost = 0; x->one = 1; x->lasterr = 0;
       if (x->g == NULL || yaep_error_code (x->g) != 0) fail ("create"); break;
     case OP_DEF_A: rc = yaep_parse_grammar (x->g, 1, "TERM;\nS : 'a' S | 'b' | ;\n"); if (rc != 0) fail ("good definition A rejected"); x->def = 1; break;
     case OP_DEF_B: bk = brk = 0; rc = yaep_read_grammar (x->g, 1, b_rt, b_rr); if (rc != 0) fail ("good definition B rejected"); x->def = 2; break;
     case OP_DEF_BAD: rc = yaep_parse_grammar (x->g, 1, "S : S | 'a' ;\n"); if (rc != YAEP_LOOP_NONTERM || yaep_error_code (x->g) != rc) fail ("bad definition not reported as a loop"); x->def = 0; x->lasterr = rc; break;
     case OP_LA0: case OP_LA2: rc = yaep_set_lookahead_level (x->g, op == OP_LA0 ? 0 : 2); if (rc != x->la) fail ("setter does not return the previous value"); x->la = op == OP_LA0 ? 0 : 2; break;
+    case OP_COST1: rc = yaep_set_cost_flag (x->g, 1); if (rc != x->cost) fail ("cost setter does not return the previous value"); x->cost = 1; break;
+    case OP_ALL: rc = yaep_set_one_parse_flag (x->g, 0); if (rc != x->one) fail ("one-parse setter does not return the previous value"); x->one = 0; break;
     case OP_SENT: case OP_NONSENT: case OP_BADTOK:
       toks = op == OP_BADTOK ? badt : x->def == 2 ? (op == OP_SENT ? sentB : nonB) : (op == OP_SENT ? sentA : nonA); ntok = op == OP_BADTOK ? 1 : 2; pos = 0; nerr = 0;
       rc = yaep_parse (x->g, rd, er, NULL, NULL, &root, &amb);
@@ -45,6 +47,8 @@ static int apply (int s, int op)
       else { if (rc != 0 || nerr < 1) fail ("non-sentence: no syntax error reported"); }
       if (rc != 0 && yaep_error_code (x->g) != rc) fail ("yaep_error_code differs from the code returned");
       if (root != NULL) yaep_free_tree (root, NULL, NULL);
+      /* a parse does not change the settings of the object */
+      if (yaep_set_one_parse_flag (x->g, x->one) != x->one || yaep_set_cost_flag (x->g, x->cost) != x->cost || yaep_set_lookahead_level (x->g, x->la) != x->la) fail ("a parse changed the settings of the object");
       break;
     case OP_FREE: yaep_free_grammar (x->g); x->g = NULL; break;
     }
@@ -64,6 +68,6 @@ int main (void)
 {
   int n;
   for (n = 1; n <= LEN; n++) enumerate (0, n);
-  printf ("CASE api_histories %ld %s every call in every applicable history of <= %d operations over two objects returns what a fresh object would (10 operations per object)\n", cases, bad ? "FAIL" : "OK", LEN);
+  printf ("CASE api_histories %ld %s every call in every applicable history of <= %d operations over two objects returns what a fresh object would (12 operations per object)\n", cases, bad ? "FAIL" : "OK", LEN);
   return bad != 0;
 }
